@@ -88,6 +88,10 @@ class FaultyFileIO(io.FileIO):
             if n:
                 super().write(bytes(b[:n]))
             raise plan.err()
+        if act == "partial":
+            # write(2) may store fewer bytes than asked and just say so (disk nearly full, RLIMIT_FSIZE, signals):
+            # no error - the caller has to look at the count and write the rest
+            return super().write(bytes(b[:max(1, len(b) // 2)]))
         n = super().write(b)
         if act == "die-after":
             _die()
@@ -127,8 +131,13 @@ def fake_open(path, mode="r", buffering=-1, encoding=None, errors=None, newline=
         return io.open(path, mode, buffering, encoding, errors, newline, **kw)
     plan = PLAN[0]
     raw = FaultyFileIO(path, "w")
+    if buffering == 0:
+        if "b" not in mode:
+            raw.close()
+            raise ValueError("can't have unbuffered text I/O")
+        return raw   # as the real open(): the caller talks to the raw file
     try:
-        buf = io.BufferedWriter(raw, buffer_size=plan.buffer_size)
+        buf = io.BufferedWriter(raw, buffer_size=plan.buffer_size if buffering < 0 else max(1, buffering))
     except BaseException:
         raw.close()
         raise
